@@ -182,6 +182,35 @@ def mk(I, st, nested, dtype=None):
     return st.alloc(e)
 
 
+U8 = "u1"  # forced dtype mark of a uint8 array (np.array(..., dtype=np.uint8)): every element a CONCRETE int in 0..255
+
+
+def mk_uint8(I, st, nested):
+    """np.array(ints, dtype=np.uint8).  Only concrete ints in 0..255 (an out-of-range value wraps or raises depending
+    on the numpy version; a symbolic one would need a range obligation): anything else is Unsupported.  A uint8 array
+    supports shape / reshape / iteration / indexing / tobytes(); arithmetic (wrap-around), assignment, dtype
+    inspection are refused (Unsupported)."""
+    shape = shape_of(nested)
+    data = flatten(nested)
+    for x in data:
+        if isinstance(x, bool) or not isinstance(x, int) or not (0 <= x <= 255):
+            raise Unsupported("np.array(dtype=uint8) of %r" % (x,))
+    e = NdE(shape, data)
+    e.dtype = U8
+    I.trust("numpy-uint8", "uint8 arrays of concrete bytes: reshape / rows / indexing keep the bytes in row-major order; tobytes() = those bytes")
+    return st.alloc(e)
+
+
+def is_uint8(st, v):
+    return isinstance(v, Ref) and st.get(v).kind == "nd" and getattr(st.get(v), "dtype", None) == U8
+
+
+def _keep_u8(e, ne):
+    if getattr(e, "dtype", None) == U8:
+        ne.dtype = U8
+    return ne
+
+
 def tofloat(x):
     x = as_arith(x)
     if isinstance(x, int):
@@ -237,6 +266,8 @@ def broadcast(sa, da, sb, db):
 
 def nd_binop(I, st, op, a, b):
     I.trust("numpy", "A5: numpy mini-model (fixed shapes, elementwise real arithmetic, dot, indexing)")
+    if is_uint8(st, a) or is_uint8(st, b):
+        raise Unsupported("arithmetic on a uint8 array (wrap-around is not modelled)")
     sa, da = asnd(I, st, a)
     sb, db = asnd(I, st, b)
     if op == "MatMult":
@@ -295,7 +326,7 @@ def nd_rows(I, st, ref):
     if len(e.shape) == 1:
         return list(e.data)
     step = size(e.shape[1:])
-    return [st.alloc(NdE(e.shape[1:], e.data[i * step : (i + 1) * step])) for i in range(e.shape[0])]
+    return [st.alloc(_keep_u8(e, NdE(e.shape[1:], e.data[i * step : (i + 1) * step]))) for i in range(e.shape[0])]
 
 
 def _index_list(I, st, idx, n):
@@ -376,10 +407,12 @@ def nd_getitem(I, st, ref, idx):
     if shape == ():
         yield st, e.data[pos[0]]
     else:
-        yield st, st.alloc(NdE(shape, [e.data[p] for p in pos]))
+        yield st, st.alloc(_keep_u8(e, NdE(shape, [e.data[p] for p in pos])))
 
 
 def nd_setitem(I, st, ref, idx, v):
+    if is_uint8(st, ref):
+        raise Unsupported("assignment into a uint8 array")
     e = st.get(ref)
     if getattr(e, "shared", False):
         raise Unsupported("item assignment to an array that shares memory with a buffer")
@@ -552,6 +585,29 @@ def nd_getattr(I, st, ref, name):
             else:
                 yield st, exc("ValueError", "The truth value of an array with more than one element is ambiguous")
         yield st, Builtin("ndarray.__bool__", _bool)
+    elif name == "dtype" and getattr(e, "dtype", None) == U8:
+        raise Unsupported("dtype of a uint8 array")
+    elif name == "tobytes":
+        def _tobytes(I, st, order="C"):
+            ee = st.get(ref)
+            if getattr(ee, "dtype", None) != U8 or order != "C":
+                raise Unsupported("ndarray.tobytes() of an array that is not uint8")
+            return bytes(ee.data)  # row-major; mk_uint8 guarantees concrete ints in 0..255
+        yield st, simple(_tobytes)
+    elif name == "reshape":
+        def _reshape_m(I, st, *shape):
+            ee = st.get(ref)
+            if len(shape) == 1 and not isinstance(shape[0], int):
+                shape = tuple(I.iterate(shape[0], st))
+            if not all(isinstance(x, int) and not isinstance(x, bool) and x >= 0 for x in shape):
+                raise Unsupported("ndarray.reshape with a symbolic or inferred (-1) dimension")
+            if size(shape) != len(ee.data):
+                return exc("ValueError", "cannot reshape array of size %d into shape %r" % (len(ee.data), tuple(shape)))
+            ne = NdE(tuple(shape), ee.data)
+            if "dtype" in ee.__dict__:
+                ne.dtype = ee.dtype
+            return st.alloc(ne)
+        yield st, simple(_reshape_m)
     elif name == "dtype":
         yield st, DtypeVal(dtype_of(e))
     elif name == "flat":
@@ -587,6 +643,8 @@ def make_module(I):
                 dt = "O"
             else:
                 raise Unsupported("np.array dtype")
+        elif isinstance(dtype, BuiltinClass) and dtype.name == "uint8":
+            return mk_uint8(I, st, to_nested(I, st, v))
         elif dtype is not None and not (isinstance(dtype, BuiltinClass) and dtype.name == "int"):
             raise Unsupported("np.array dtype")
         if dt == "O":
